@@ -562,8 +562,10 @@ class CFGrid2DTopology(CFGridTopology):
             grid[:-1, :-1], grid[:-1, 1:], grid[1:, 1:], grid[1:, :-1],
         ], axis=-1)
 
-        # Set nan bounds for all cells that have any `nan` in its bounds.
-        cells_with_nans = numpy.isnan(bounds).any(axis=2)
+        # Set nan bounds for all cells that have any `nan` in its bounds,
+        # and for the cells that have no coordinate themselves.
+        # The neighbours of a lone missing cell give it four finite corners.
+        cells_with_nans = numpy.isnan(bounds).any(axis=2) | nan_coordinates
         bounds[cells_with_nans] = numpy.nan
 
         data_array = xarray.DataArray(
